@@ -64,7 +64,7 @@ func (b *listItemParser) Continue(node ast.Node, reader text.Reader, pc Context)
 	}
 
 	offset := lastOffset(node.Parent())
-	isEmpty := node.ChildCount() == 0 && pc.Get(emptyListItemWithBlankLines) != nil
+	isEmpty := node.ChildCount() == 0 && pc.Get(emptyListItemWithBlankLines) == node.Parent()
 	indent, _ := util.IndentWidth(line, reader.LineOffset())
 	if (isEmpty || indent < offset) && indent < 4 {
 		_, typ := matchesListItem(line, true)
